@@ -49,7 +49,8 @@ VGiant(x) == LET need == Worst(x.nb) * x.km + Worst(x.nb) * x.vm IN
   \o FailIf(x.rc = 0 /\ (~x.nonneg \/ x.reqm < need), "C17", "reported size is smaller than the worst case")
 
 \* the allocating variant on such a list: refused, and no string handed out
-VGiantMalloc(x) == FailIf(Worst(x.nb) * x.km + Worst(x.nb) * x.vm > IntMaxMillions /\ (x.rc = 0 \/ ~x.untouched), "C17", "the allocating variant accepted a list whose size exceeds INT_MAX (or handed out a string with its refusal)")
+\* (an implementation that sizes the text exactly instead of by the worst case may succeed - then with the right text)
+VGiantMalloc(x) == FailIf(Worst(x.nb) * x.km + Worst(x.nb) * x.vm > IntMaxMillions /\ ~((x.rc # 0 /\ x.untouched) \/ (x.rc = 0 /\ x.textOK)), "C17", "the allocating variant neither refused a list whose worst-case size exceeds INT_MAX (handing out nothing) nor composed it correctly")
 
 \* the boundary itself: the list's exact worst-case size (lengths only; keys share one buffer) is within 3 of INT_MAX.
 \* TLC integers are 32 bit: sizes are kept as <<hi, lo>> in base 2^20.
@@ -67,7 +68,7 @@ VBoundary(x) == LET need == SumItems(x.items, 1, x.nb, <<0, 0>>) IN
 
 \* the allocating variant needs the figure plus one for the terminator: a figure of INT_MAX or more is refused, nothing is handed out
 VBoundaryMalloc(x) == LET need == SumItems(x.items, 1, x.nb, <<0, 0>>) IN
-     FailIf((PairGt(need, IntMaxPair) \/ need = IntMaxPair) /\ (x.rc = 0 \/ ~x.untouched), "C17", "the allocating variant accepted a list whose size plus terminator exceeds INT_MAX (or handed out a string with its refusal)")
+     FailIf((PairGt(need, IntMaxPair) \/ need = IntMaxPair) /\ ~((x.rc # 0 /\ x.untouched) \/ (x.rc = 0 /\ x.textOK)), "C17", "the allocating variant neither refused a list whose worst-case size plus terminator exceeds INT_MAX (handing out nothing) nor composed it correctly")
 
 V(x) == CASE x.e = "ComposeReqBoundary" -> VBoundary(x) [] x.e = "ComposeMallocBoundary" -> VBoundaryMalloc(x) [] x.e = "ComposeReq" -> VComposeReq(x) [] x.e = "Compose" -> VCompose(x) [] x.e = "ComposeMalloc" -> VComposeMalloc(x)
           [] x.e = "Dissect" -> VDissect(x) [] x.e = "ComposeMallocHuge" -> VHuge(x) [] x.e = "DissectFault" -> VDissectFault(x) [] x.e = "ComposeFault" -> VComposeFault(x) [] x.e = "ComposeReqGiant" -> VGiant(x) [] x.e = "ComposeMallocGiant" -> VGiantMalloc(x) [] OTHER -> Fail("C17", "unknown event")
